@@ -100,6 +100,9 @@ def analyse(program):
             res.obligations.add((rule, what, p[0], p[1], "%s:%s" % (t.get("file"), t.get("line"))))
         else:
             res.obligations.add((rule, what, str(where[0]), str(where[1]), ""))
+    if P.inliner.lazy_unexpanded:
+        e, b, what = P.inliner.lazy_unexpanded[0]
+        raise Inconclusive("%s in %s runs a closure with side effects inside library iterator code that is not expanded; its effects cannot be analysed" % (what, e))
     res.functions = len(P.facts.fns)
     res.call_sites = sum(1 for f in P.facts.fns.values() for b in f.blocks if b["term"]["k"] == "call")
     res.unresolved = sorted(set(P.inliner.unresolved))
